@@ -225,7 +225,13 @@ class PatchInVariableFiles(Target):
             del user[FlowIR.LabelGlobal]
         conc = Obj('concrete', platforms=[DEFAULT, 'plat'], get_stage_number=Extern('get_stage_number', lambda c: 2),
                    set_platform_stage_variable=Extern('set_platform_stage_variable',
-                                                      lambda c, s, n, v, platform=None: c.ghost['sets'].append((platform, s, n, v))))
+                                                      lambda c, s, n, v, platform=None: c.ghost['sets'].append((platform, s, n, v))),
+                   # the other setters of FlowIRConcrete (not used by the current code): a write through them lands in
+                   # another scope and is recorded as such
+                   set_platform_global_variable=Extern('set_platform_global_variable',
+                                                       lambda c, n, v, platform=None: c.ghost['sets'].append((platform, 'GLOBAL', n, v))),
+                   set_global_variable=Extern('set_global_variable', lambda c, n, v: c.ghost['sets'].append((DEFAULT, 'GLOBAL', n, v))),
+                   set_stage_variable=Extern('set_stage_variable', lambda c, s, n, v: c.ghost['sets'].append((DEFAULT, s, n, v))))
         cls = Obj('cls', layer_many_variable_files=Extern('layer_many_variable_files', lambda c, files: user))
         errs = []
         return State(args=[cls, ['f1'], conc, errs], errs=errs, ga=ga, gb=gb, sb=sb, which=which)
@@ -281,8 +287,8 @@ class LayerManyVariableFiles(Target):
 
     def externs(self, c, st):
         def override(c, agg, new):
-            c.ghost['merged'].append(new['from'])
-            agg['last'] = new['from']
+            c.ghost['merged'].append(new.get('from'))
+            agg['last'] = new.get('from')
             return agg
         return {'experiment.model.frontends.flowir.FlowIR.override_object': Extern('FlowIR.override_object', override)}
 
